@@ -883,6 +883,8 @@ func runC07(r *Run) {
 			ruleFetchBounded(r, v, "R07.11")
 		}
 	}
+	r.floor("R07.12", 3)
+	ruleLineSpan(r, "R07.12")
 	// R07.10 (= R05.4a): a store routed to the cache on a presence test of fewer than all of its bytes is written past the line end (index out of range in Line.set)
 	r.floor("R07.10", 7)
 	for _, v := range variants(r.W) {
@@ -985,5 +987,99 @@ func rulePcEndComparison(r *Run, rule string) {
 				})
 			}
 		}
+	}
+}
+
+// ruleLineSpan (R07.12): in the variants whose data path handles one cache line per
+// access (per-line locks and protocol state selected from the FIRST byte address of
+// the access), something on the request path must look at the other byte addresses
+// too — align each of them, or compare the line of the first with the line of the
+// last — because the ISA layer produces accesses at any address: `lw t0, 62(zero)`
+// spans two 64-byte lines. Without any such site the bytes beyond the first line
+// are read from / written to the first line's buffer (panic "value presence should
+// have been checked first" / index out of range).
+func ruleLineSpan(r *Run, rule string) {
+	w := r.W
+	for _, v := range variants(w) {
+		if v.pkg == nil || !v.pipelined() || !usesLineLocks(w, v) {
+			continue
+		}
+		info := v.info
+		pe := newProvEngine(w, v.pkg)
+		isAlign := func(call *ast.CallExpr) bool {
+			f, ok := typeutil.Callee(info, call).(*types.Func)
+			if !ok {
+				return false
+			}
+			if _, ok := pe.alignmentFunc(f); ok {
+				return true
+			}
+			_, ok = pe.alignParam(f)
+			return ok
+		}
+		var sites []string
+		firstOnly := 0
+		for _, f := range v.pkg.Syntax {
+			ast.Inspect(f, func(n ast.Node) bool {
+				switch x := n.(type) {
+				case *ast.RangeStmt:
+					sl, ok := info.TypeOf(x.X).Underlying().(*types.Slice)
+					if !ok || x.Value == nil {
+						return true
+					}
+					if b, ok := sl.Elem().Underlying().(*types.Basic); !ok || b.Kind() != types.Int32 {
+						return true
+					}
+					vid, ok := x.Value.(*ast.Ident)
+					if !ok {
+						return true
+					}
+					vobj := info.Defs[vid]
+					ast.Inspect(x.Body, func(m ast.Node) bool {
+						if call, ok := m.(*ast.CallExpr); ok && isAlign(call) {
+							uses := false
+							ast.Inspect(call, func(k ast.Node) bool {
+								if id, ok := k.(*ast.Ident); ok && info.Uses[id] == vobj {
+									uses = true
+								}
+								return true
+							})
+							if uses {
+								sites = append(sites, w.Fset.Position(call.Pos()).String())
+							}
+						}
+						if be, ok := m.(*ast.BinaryExpr); ok && be.Op == token.REM {
+							if id, ok := ast.Unparen(be.X).(*ast.Ident); ok && info.Uses[id] == vobj {
+								sites = append(sites, w.Fset.Position(be.Pos()).String())
+							}
+						}
+						return true
+					})
+				case *ast.CallExpr:
+					if !isAlign(x) {
+						return true
+					}
+					// an argument that selects an element other than the first
+					for _, a := range x.Args {
+						ast.Inspect(a, func(k ast.Node) bool {
+							if ix, ok := k.(*ast.IndexExpr); ok {
+								if sl, ok := info.TypeOf(ix.X).Underlying().(*types.Slice); ok {
+									if b, ok := sl.Elem().Underlying().(*types.Basic); ok && b.Kind() == types.Int32 {
+										if c, ok := constInt64(info.Types[ix.Index]); !ok || c != 0 {
+											sites = append(sites, w.Fset.Position(ix.Pos()).String())
+										}
+									}
+								}
+							}
+							return true
+						})
+					}
+					firstOnly++
+				}
+				return true
+			})
+		}
+		sort.Strings(sites)
+		r.check(len(sites) > 0, rule, v.rel+":line-span", v.run.Pos(), "the data path selects one line from the first byte address of an access (%d alignment calls); some site must align or compare the other byte addresses, because an access may span two lines (sites found: %v)", firstOnly, sites)
 	}
 }
